@@ -370,7 +370,7 @@ theorem withResumableOf_live {n d : Node} (hl : n.Live) (hd : d.ResumableOK) (hs
 theorem loadActive_errLe (m : Mach U) (st : List Bool) : World.ErrLe m.w (m.loadActive st).w := by
   unfold loadActive
   split
-  · intro h; exact absurd h (World.fail'_err _ _)
+  · intro h; exact absurd h (World.fail'_errX _ _)
   · intro h
     simp only [w_updateActivity] at h
     have := (Node.commit_ext _ _).err h
@@ -381,7 +381,7 @@ theorem loadActive_inv {base : Node} {m : Mach U} (st : List Bool) (hi : LiveInv
   revert he
   unfold loadActive
   split
-  · intro h; exact absurd h (World.fail'_err _ _)
+  · intro h; exact absurd h (World.fail'_errX _ _)
   · next root st' hload =>
     intro he
     dsimp only at he ⊢
@@ -405,7 +405,7 @@ theorem loadActive_inv {base : Node} {m : Mach U} (st : List Bool) (hi : LiveInv
 theorem loadEnter_errLe (m : Mach U) (st : List Bool) : World.ErrLe m.w (m.loadEnter st).w := by
   unfold loadEnter
   split
-  · intro h; exact absurd h (World.fail'_err _ _)
+  · intro h; exact absurd h (World.fail'_errX _ _)
   · intro h
     simp only [w_updateActivity] at h
     have := (Node.enter_ext _ _).err h
@@ -416,7 +416,7 @@ theorem loadEnter_inv {base : Node} {m : Mach U} (st : List Bool) (hi : DormInv 
   revert he
   unfold loadEnter
   split
-  · intro h; exact absurd h (World.fail'_err _ _)
+  · intro h; exact absurd h (World.fail'_errX _ _)
   · next root st' hload =>
     intro he
     dsimp only at he ⊢
